@@ -498,7 +498,7 @@ def run(ctx: Ctx):
     if ctx.replay:
         return replay(ctx)
     quick = ctx.tier == "quick"
-    ncases = 1500 if quick else 30000
+    ncases = 2500 if quick else 30000
     rng = ctx.rng
     if ctx.translate(["udp"]):
         ctx.extra["mirrored_source_changed_since_review"] = anchors_changed(ctx)
